@@ -87,4 +87,100 @@ def run(tier, seed, only=None):
     rep.trusted = ['crosshair-tool 0.0.110', 'z3', 'engine/fakedb.py (driver model, ProbeLock)', 'reference R1-R6 in checks/h_c19.py',
                    'threading.Lock hand-over between threads (thread schedules are outside the check)']
     ch.run_harnesses(rep, specs, classify)
+    if not only: tie_real_sqlite(rep)
     return rep
+
+
+def tie_real_sqlite(rep):
+    """Concrete tie (NOT solver-quantified; reported as 'concrete-tie' obligations): the same single-fault scenarios on the
+    real sqlite3 engine and a real database file through the public API only - the fault is injected by a
+    sqlite3.Connection/Cursor subclass passed with the documented `factory=` connect argument.  Ties the fake-driver model
+    of the harnesses to the real driver: after every faulted session the provider's real lock is free, no session state is
+    left, and a following immediate write session commits."""
+    import shutil, sqlite3, tempfile
+    from engine.core import Ob, HOLDS, CEX
+    from pony.orm import Database, PrimaryKey, Required, db_session, select, core
+
+    class Plan(object):
+        k = n = 0
+        armed = False
+
+    def tick(op):
+        if Plan.armed:
+            Plan.n += 1
+            if Plan.n == Plan.k: raise sqlite3.OperationalError('injected fault in %s' % op)
+
+    class Cur(sqlite3.Cursor):
+        def execute(self, *a):
+            tick('execute'); return sqlite3.Cursor.execute(self, *a)
+        def executemany(self, *a):
+            tick('executemany'); return sqlite3.Cursor.executemany(self, *a)
+
+    class Con(sqlite3.Connection):
+        def __init__(self, *a, **kw):
+            tick('connect'); sqlite3.Connection.__init__(self, *a, **kw)
+        def cursor(self, *a, **kw):
+            tick('cursor'); return sqlite3.Connection.cursor(self, Cur)
+        def execute(self, *a):
+            tick('execute'); return sqlite3.Connection.execute(self, *a)
+        def commit(self):
+            tick('commit'); sqlite3.Connection.commit(self)
+        def rollback(self):
+            tick('rollback'); sqlite3.Connection.rollback(self)
+        def close(self):
+            tick('close'); sqlite3.Connection.close(self)
+
+    tmp = tempfile.mkdtemp(prefix='verif_c19_')
+    try:
+        db = Database()
+        db.bind('sqlite', os.path.join(tmp, 'tie.sqlite'), create_db=True, factory=Con, timeout=0.2)
+
+        class T(db.Entity):
+            id = PrimaryKey(int, auto=True)
+            a = Required(int)
+        db.generate_mapping(create_tables=True)
+        shapes = {'ro': {}, 'opt': {}, 'imm': dict(immediate=True), 'ser': dict(serializable=True), 'ddl': dict(ddl=True)}
+        serial = [0]
+
+        def session(name, raises):
+            with db_session(**shapes[name]):
+                if name == 'ddl':
+                    serial[0] += 1
+                    db.execute('CREATE TABLE x%d (a INTEGER)' % serial[0])
+                else:
+                    select(t for t in T)[:]
+                    if name != 'ro': T(a=1)
+                if raises: raise KeyError('body')
+
+        for name in shapes:
+            for raises in (False, True):
+                bad = None
+                for k in range(1, 41):
+                    Plan.k, Plan.n, Plan.armed = k, 0, True
+                    try: session(name, raises)
+                    except Exception: pass
+                    Plan.armed = False
+                    prov = db.provider
+                    if prov.transaction_lock.locked() or prov.pre_transaction_lock.locked():
+                        bad = (k, 'transaction lock left held'); break
+                    if core.local.db2cache or core.local.db_session is not None:
+                        bad = (k, 'session state left'); break
+                    try:
+                        with db_session(immediate=True):
+                            T(a=2)
+                    except Exception as e:
+                        bad = (k, 'following session failed: %s: %s' % (type(e).__name__, e)); break
+                    if prov.transaction_lock.locked():
+                        bad = (k, 'lock held after the following session'); break
+                nm = 'tie:real-sqlite:%s%s:fault 1..40' % (name, ':body-raises' if raises else '')
+                if bad:
+                    rep.add(Ob(nm, 'concrete-tie', CEX, detail='fault at DB-API call %d: %s' % bad, reproduced=True,
+                               cex={'shape': name, 'raises': raises, 'k': bad[0], 'what': bad[1]},
+                               replay='# see tie_real_sqlite in /verif/checks/c19.py: shape %s, raises=%r, fault at call %d -> %s\nraise SystemExit(1)\n'
+                                      % (name, raises, bad[0], bad[1])))
+                    if prov.transaction_lock.locked(): prov.transaction_lock.release()
+                else:
+                    rep.add(Ob(nm, 'concrete-tie', HOLDS, detail='40 fault positions on the real engine'))
+        db.disconnect()
+    finally:
+        shutil.rmtree(tmp, ignore_errors=True)
